@@ -886,15 +886,18 @@ fn source_clauses(
     // err-sound: every error names a planted fault (or the unreachable walk root), once, right kind
     let faults: Vec<&Visit> = visits.iter().filter(|v| v.fault.is_some()).collect();
     let mut reported: BTreeSet<String> = BTreeSet::new();
+    let mut pathless = 0usize;
     for e in &uv.es {
         // An error without a path: what walkdir makes of a link to a directory that cannot be
         // opened. It is attributed to such a fault not yet accounted for (there is nothing else to
         // go by) — and it does not *name the offending path*, which is reported once per walker
         // (known finding F12: the path is lost inside walkdir, the crate cannot restore it).
         if e.path.is_none() {
-            match faults.iter().find(|v| matches!(v.fault, Some(Fault::LinkToUnreadable)) && !reported.contains(&v.path)) {
+            // (which of several such links it belongs to cannot be told: they are counted)
+            pathless += 1;
+            let such: Vec<&&Visit> = faults.iter().filter(|v| matches!(v.fault, Some(Fault::LinkToUnreadable))).collect();
+            match such.first().filter(|_| pathless <= such.len()) {
                 Some(v) => {
-                    reported.insert(v.path.clone());
                     if e.kind != "PermissionDenied" || e.cycle {
                         out.violate("C20", "err-sound", wi, format!("path-less error of kind {} (cycle: {})", e.kind, e.cycle), vec![format!("error-kind:{}", v.path)]);
                     }
@@ -970,6 +973,7 @@ fn source_clauses(
         }
     }
     // err-complete: a fault is reported whenever the walk was obliged to touch it
+    let mut due_pathless: Vec<String> = Vec::new();
     for v in &faults {
         let f = v.fault.as_ref().unwrap();
         if matches!(f, Fault::RootMissing) {
@@ -1024,7 +1028,11 @@ fn source_clauses(
             },
             _ => true,
         };
-        if obliged && reachable {
+        if obliged && reachable && matches!(f, Fault::LinkToUnreadable) {
+            // its error names no path: such faults are due as a number, not one by one
+            due_pathless.push(v.path.clone());
+        }
+        else if obliged && reachable {
             out.violate(
                 "C20",
                 "err-complete",
@@ -1036,6 +1044,20 @@ fn source_clauses(
         else {
             out.probe("fault:in-prunable-region");
         }
+    }
+    if due_pathless.len() > pathless {
+        out.violate(
+            "C20",
+            "err-complete",
+            wi,
+            format!(
+                "{} links to directories that cannot be opened were touched by the walk ({:?}), but only {} error items without a path were produced",
+                due_pathless.len(),
+                due_pathless,
+                pathless
+            ),
+            due_pathless.iter().map(|p| format!("no-error:{}", p)).collect(),
+        );
     }
     // reach: where the faults sit
     for v in &faults {
